@@ -125,22 +125,25 @@ def _process_step_expression(
             return (new_target_assets, None)
 
         case 'transitive':
-            # The transitive expression is very similar to the field
-            # expression, but it proceeds recursively until no target is
-            # found and it and it sets the new targets to the entire list
-            # of assets identified during the entire transitive recursion.
+            # The transitive expression applies its step expression
+            # repeatedly, starting from the current targets, until no new
+            # assets are found. The new targets are all of the assets
+            # identified along the way. Assets already visited are not
+            # expanded again so that cyclic and self associations terminate.
             new_target_assets = []
-            for target_asset in target_assets:
-                new_target_assets.extend(model.\
-                    get_associated_assets_by_field_name(target_asset,
-                        step_expression['stepExpression']['name']))
-            if new_target_assets:
-                (additional_assets, _) = _process_step_expression(
-                    lang_graph, model, new_target_assets, step_expression)
-                new_target_assets.extend(additional_assets)
-                return (new_target_assets, None)
-            else:
-                return ([], None)
+            visited_ids = set()
+            frontier = list(target_assets)
+            while frontier:
+                (reached_assets, _) = _process_step_expression(
+                    lang_graph, model, frontier,
+                    step_expression['stepExpression'])
+                frontier = []
+                for asset in reached_assets:
+                    if int(asset.id) not in visited_ids:
+                        visited_ids.add(int(asset.id))
+                        new_target_assets.append(asset)
+                        frontier.append(asset)
+            return (new_target_assets, None)
 
         case 'subType':
             new_target_assets = []
